@@ -132,6 +132,26 @@ var docFamilies = []docFamily{
 	{"long-number-literals", func(n int) []byte {
 		return []byte("[" + strings.Repeat(strings.Repeat("7", 700)+".5e-690,", n/20) + "0]")
 	}, wide},
+	// CONTENT that takes a rarer route, under the shapes above: bytes that are not valid UTF-8 in a leaf below deep
+	// nesting (seeded change C20r10-m1: a fix-up pass over the result repeated by every ancestor of the offending
+	// string), numbers that need the multiprecision fallback in bulk (seeded change C20r10-m2: the fallback's digit
+	// buffer sized by the rest of the document), integers just beyond int64
+	{"deep-arrays-around-an-invalid-utf8-string", func(n int) []byte {
+		return []byte(strings.Repeat("[1,2,3,", n) + "\"caf\xe9\"" + strings.Repeat("]", n))
+	}, deep},
+	{"deep-objects-around-an-invalid-utf8-key", func(n int) []byte {
+		return []byte(strings.Repeat(`{"a":`, n) + "{\"k\xff\":1}" + strings.Repeat("}", n))
+	}, deep},
+	{"deep-mixed-around-a-four-byte-character", func(n int) []byte {
+		return []byte(strings.Repeat(`[{"a":`, n/2) + "\"\xf0\x9f\x98\x80\"" + strings.Repeat("}]", n/2))
+	}, deep},
+	{"many-invalid-utf8-strings", func(n int) []byte { return []byte("[" + strings.Repeat("\"caf\xe9\",", 4*n) + `""]`) }, wide},
+	{"many-slow-path-numbers", func(n int) []byte {
+		return []byte("[" + strings.Repeat("9007199254740993,4.9e-324,2.2250738585072011e-308,9007199254740995.0,", n) + "0]")
+	}, wide},
+	{"many-integers-around-the-int64-limit", func(n int) []byte {
+		return []byte("[" + strings.Repeat("1234567890123456789,9223372036854775808,-9223372036854775809,", n) + "0]")
+	}, wide},
 	{"whitespace-heavy", func(n int) []byte { return []byte("[" + strings.Repeat(" \n\t 1 \r\n , ", 4*n) + "2 ]") }, wide},
 }
 
